@@ -60,6 +60,11 @@ def std_datasets():
     X = rng.rand(4, 2)
     Y = np.array([[0.0, 1.0], [1.0, 0.0], [0.4, 0.4], [0.9, 0.9]])
     register_dataset("VVD2tiny", X, Y)
+    # near-twins in the INPUT space: designs 2 and 7 are 2e-6 apart (further than the 1e-6 tolerance of locate_points, closer than a
+    # relative tolerance of 1e-5 would separate): every point must still be mapped to its own design
+    Xn = rng.rand(10, 2)
+    Xn[7] = Xn[2] + 2e-6
+    register_dataset("VVD2near", Xn, rng.randn(10, 2))
     # twenty designs: ids beyond the 8 slots of a small hash set, so that late-run subsets iterate in an order that is not the sorted one
     rng2 = np.random.RandomState(777)
     register_dataset("VVD2c", rng2.rand(20, 2), rng2.randn(20, 2))
